@@ -28,6 +28,9 @@ def run(ctx: Ctx) -> None:
     gate(ctx)
     stop(ctx)
     plugin(ctx)
+    from .C03 import unchanged
+
+    unchanged(ctx, "R-C10-STOP")  # messages beyond the limit are returned untouched
 
 
 def gate(ctx: Ctx, rule="R-C10-GATE") -> None:
